@@ -10,39 +10,11 @@ use chia_bls::Signature;
 use chia_consensus::flags::{ConsensusFlags, MEMPOOL_MODE};
 use chia_consensus::spendbundle_validation::validate_clvm_and_signature;
 use serde_json::json;
-use vcore::bundlegen::{gen_bundle, puzzle, ABundle, ASpend};
+use vcore::bundlegen::{gen_bundle, many_spends};
 use vcore::conditions::{evaluate, MVisitor, Verdict};
 use vcore::report::run_cases;
-use vcore::sx::{Repr, Sx};
+use vcore::sx::Repr;
 use vcore::{Args, Report, Rng};
-
-fn many_spends(rng: &mut Rng, n: usize) -> ABundle {
-    let mut spends = vec![];
-    for i in 0..n {
-        let k = rng.usize(vcore::bundlegen::NUM_PUZZLES);
-        let ph = puzzle(k).tree_hash();
-        let parent = vcore::sha256(&[b"many", &(i as u64).to_be_bytes(), &rng.bytes(4)]);
-        let amount = if rng.chance(1, 4) { u64::MAX - rng.below(4) } else { rng.below(1000) };
-        let mut conds = vec![];
-        if rng.chance(1, 3) {
-            conds.push(Sx::pair(Sx::atom(&[51]), Sx::list(&[Sx::atom(&rng.bytes32()), Sx::atom(&vcore::ints::minimal_be_u64(rng.below(amount.max(1))))])));
-        }
-        spends.push(ASpend {
-            parent,
-            puzzle_idx: k,
-            puzzle_hash: ph,
-            amount,
-            amount_atom: Sx::atom(&vcore::ints::minimal_be_u64(amount)),
-            parent_atom: Sx::atom(&parent),
-            puzzle_hash_atom: Sx::atom(&ph),
-            conds,
-            cond_term: Sx::nil(),
-            spend_ext: Sx::nil(),
-            fields: 4,
-        });
-    }
-    ABundle { spends, spend_term: Sx::nil(), outer_ext: Sx::nil(), tags: vec![format!("many-spends:{n}")] }
-}
 
 fn case(ctx: &Ctx, rng: &mut Rng, rep: &mut Report, params: &vcore::bundlegen::GenParams, big: bool) {
     let b = if big {
